@@ -120,6 +120,10 @@ def _post(snap, result, exc, args, kwargs):
 
         db = _T
     seq, text = f["seq"], db.structure
+    # the notation the strands are slices of must be this structure's own: same sequence, same length
+    dbseq = getattr(db, "sequence", None)
+    if dbseq is not None:
+        rec.check("strands.dot-bracket-is-of-this-structure", dbseq == seq and len(text) == n, lambda: det({"dot_bracket.sequence": dbseq[:120], "sequence": seq[:120], "len(structure)": len(text)}))
     allstr = []
     for s in stems:
         allstr += [s.strand5p, s.strand3p]
@@ -258,6 +262,11 @@ def run_case(case, rec):
         seq2 = "".join("UGCA"[(i * 7 + n) % 4] for i in range(n))
         try:
             mon2d.make_bpseq(n, pairs, seq2).elements
+        except Exception:
+            pass
+        # ... and the same stems in a molecule with a longer 3' tail
+        try:
+            mon2d.make_bpseq(n + 3, pairs).elements
         except Exception:
             pass
 
